@@ -27,5 +27,6 @@ Props ==
             ELSE IF \A k \in (1..n) \ {g} : r[k] = 0 THEN g2 = g
             ELSE g2 # g /\ r[g2] = 1 /\ \A k \in (1..n) \ {g} : r[k] = 1 => Dist(g, g2) <= Dist(g, k),
             <<"ExactSuccessor", n, lockf, g, r, h, g2>>)
+  /\ Assert(GrantRel(n, g - 1, {k - 1 : k \in {j \in 1..n : r[j] = 1}}, busy, g2 - 1), <<"refines WbArbiterAbs!GrantRel", n, lockf, g, r, h, g2>>)
   /\ IF Export THEN PrintT(<<"EDGE", ToJson([n |-> n, lock |-> lockf, g |-> g, req |-> r, hold |-> h, g2 |-> g2])>>) ELSE TRUE
 ====
